@@ -117,4 +117,72 @@ theorem C01_f32_bits_alpha_counterexample :
     qbitsF .even c 16777211 = 2097151 ∧ qbits .even c 16777211 = 4194303 / 2 := by
   refine ⟨by decide +kernel, by decide +kernel, by decide +kernel, by decide +kernel⟩
 
+
+/-! ## quantized_relu (negative_slope = 0, is_quantized_clip) -/
+
+/-- General form: float32 plain `quantized_relu` equals the exact model for EVERY binary32 input
+    as long as `x * m` and `x * m / m_i` do not overflow.  No `2^24`-steps envelope: saturated
+    inputs are replaced by `x_u = m_i − m_f` before the residual is formed. -/
+theorem C01_f32_transfer_relu_all (t : Tie) (c : ReluCfg) (x : ℚ) (hsl : c.slopeLog = none)
+    (hn0 : 0 ≤ c.bits) (hn24 : c.bits ≤ 24) (hs : -100 ≤ c.integer - c.bits) (hi : c.integer ≤ 100)
+    (hx : isF32 x = true) (ho1 : |x * pow2 c.bits| < pow2 128) (ho2 : |x / c.step| < pow2 128) :
+    qreluF t c x = qrelu t c x := by
+  have hnsb : c.nsb = c.bits := by simp [ReluCfg.nsb, hsl]
+  exact qreluF_eq t c x hsl (by omega) (by omega) (by omega) hi hx (by rw [hnsb]; exact ho1) ho2
+
+/-- **Transfer theorem**: for every binary32 `x` with `|x| < 2^24 · step`, `0 ≤ bits ≤ 24`,
+    `−100 ≤ integer − bits`, `integer ≤ 100`, float32 `quantized_relu(bits, integer)(x)` equals
+    the exact model `qrelu`. -/
+theorem C01_f32_transfer_relu (t : Tie) (c : ReluCfg) (x : ℚ) (hsl : c.slopeLog = none)
+    (hn0 : 0 ≤ c.bits) (hn24 : c.bits ≤ 24) (hs : -100 ≤ c.integer - c.bits) (hi : c.integer ≤ 100)
+    (hx : isF32 x = true) (henv : |x| < pow2 24 * c.step) : qreluF t c x = qrelu t c x := by
+  have hnsb : c.nsb = c.bits := by simp [ReluCfg.nsb, hsl]
+  have hs0 := c.step_pos
+  have ho2 : |x / c.step| < pow2 128 := by
+    rw [abs_div, abs_of_pos hs0, div_lt_iff₀ hs0]
+    have : pow2 24 * c.step ≤ pow2 128 * c.step :=
+      mul_le_mul_of_nonneg_right (pow2_le_pow2 (by norm_num)) hs0.le
+    linarith
+  have ho1 : |x * pow2 c.bits| < pow2 128 := by
+    rw [abs_mul, abs_of_pos (pow2_pos _)]
+    have h1 := mul_lt_mul_of_pos_right henv (pow2_pos c.bits)
+    have h2 : pow2 24 * c.step * pow2 c.bits = pow2 (24 + c.integer) := by
+      unfold ReluCfg.step; rw [hnsb, ← pow2_add, ← pow2_add]; congr 1; ring
+    rw [h2] at h1
+    exact lt_of_lt_of_le h1 (pow2_le_pow2 (by omega))
+  exact C01_f32_transfer_relu_all t c x hsl hn0 hn24 hs hi hx ho1 ho2
+
+/-- non-vacuity, including an input far beyond `2^24` steps (saturates exactly) -/
+example : let c : ReluCfg := ⟨8, 8, none⟩
+    isF32 33554436 = true ∧ qreluF .even c 33554436 = 255 ∧ qrelu .even c 33554436 = 255 ∧
+    qreluF .even c (rnd32 (3 / 10)) = 0 ∧ qreluF .even c (rnd32 (37 / 10)) = 4 := by
+  refine ⟨by decide +kernel, by decide +kernel, by decide +kernel, by decide +kernel,
+    by decide +kernel⟩
+
+/-! ## quantized_linear (not the 1-bit sign function) -/
+
+/-- **Transfer theorem**: for every binary32 `x` with `|x| < 2^24 · quantization_scale`,
+    `0 ≤ bits − keep_negative ≤ 24`, `−100 ≤ integer − unsigned_bits`, `integer ≤ 100`, and
+    `alpha` none or a power of two `2^a`, `−49 ≤ a ≤ 3` (ANY sign of `a`: for quantized_linear
+    `alpha` is part of the lattice step), float32 `quantized_linear(...)(x)` equals `qlinear`. -/
+theorem C01_f32_transfer_linear (t : Tie) (c : LinCfg) (a : ℤ) (x : ℚ)
+    (hsf : c.signFn = false) (hub : 0 ≤ c.ub) (hub24 : c.ub ≤ 24)
+    (hs : -100 ≤ c.integer - c.ub) (hi : c.integer ≤ 100)
+    (ha : (c.alpha = none ∧ a = 0) ∨ c.alpha = some (pow2 a)) (ha1 : -49 ≤ a) (ha2 : a ≤ 3)
+    (hx : isF32 x = true) (henv : |x| < pow2 24 * c.qs) : qlinearF t c x = qlinear t c x :=
+  qlinearF_eq t c a x hsf hub hub24 ha (by omega) (by omega) (by omega) (by omega) hx henv
+
+example : let c : LinCfg := ⟨8, 0, false, true, some (1 / 4)⟩
+    c.signFn = false ∧ c.alpha = some (pow2 (-2)) ∧ isF32 (rnd32 (3 / 10)) = true ∧
+    |rnd32 (3 / 10)| < pow2 24 * c.qs ∧ qlinearF .even c (rnd32 (3 / 10)) = 127 / 512 := by
+  refine ⟨by decide +kernel, by decide +kernel, by decide +kernel, by decide +kernel,
+    by decide +kernel⟩
+
+/-- COUNTEREXAMPLE (envelope is needed; reproduced on the real code):
+    `quantized_linear(8, 7)(2^25 + 4)` returns `128` in float32, the exact model `127`. -/
+theorem C01_f32_linear_envelope_counterexample :
+    let c : LinCfg := ⟨8, 7, false, true, none⟩
+    isF32 33554436 = true ∧ qlinearF .even c 33554436 = 128 ∧ qlinear .even c 33554436 = 127 := by
+  refine ⟨by decide +kernel, by decide +kernel, by decide +kernel⟩
+
 end QKV
